@@ -16,6 +16,7 @@ use std::collections::HashMap;
 pub struct Tables {
     pub classes: HashMap<String, Vec<u8>>,
     pub canon: HashMap<String, u8>,
+    pub order: HashMap<String, usize>,
 }
 impl Tables {
     pub fn load(path: &str) -> Self { serde_json::from_slice(&std::fs::read(path).expect("tables")).expect("tables json") }
@@ -46,6 +47,7 @@ pub fn load_recs(path: &str) -> Vec<Rec> {
 }
 pub fn key(t: &[String]) -> String { t.join(" ") }
 
+fn has_exp_classes(t: &[String]) -> bool { t.iter().any(|c| c == "e" || c == "E") }
 pub struct Variant { pub bytes: Vec<u8>, pub kind: &'static str }
 
 const DIGITS: [&str; 3] = ["0", "d17", "d89"];
@@ -100,20 +102,29 @@ pub fn variants(rec: &Rec, idx: &HashMap<String, usize>, recs: &[Rec], tb: &Tabl
             }
         }
     }
-    // loop insertion
-    let gaps: Vec<usize> = if thorough { (0..=n).collect() } else { vec![rng.below(n + 1), rng.below(n + 1)] };
-    for g in gaps {
+    // loop insertion: at every gap, for every self-loop class of the state reached there, runs whose
+    // length puts what follows on / around the 16-, 32- and 64-byte block edges of the SIMD scanners
+    let ks: &[usize] = &KS_QUICK;
+    for g in 0..=n {
         let Some(p) = prefix(g).or(if g == n { Some(rec) } else { None }) else { continue };
         if p.loops.is_empty() { continue; }
-        let lc = &p.loops[rng.below(p.loops.len())];
-        if DIGITS.contains(&lc.as_str()) && has_exp { continue; }
-        let ks: Vec<usize> = if thorough { KS_QUICK.to_vec() } else { vec![KS_QUICK[rng.below(KS_QUICK.len())], rng.range(1, 130)] };
-        for k in ks {
+        let classes: Vec<&String> = if thorough { p.loops.iter().collect() } else { vec![&p.loops[rng.below(p.loops.len())]] };
+        for lc in classes {
+            if DIGITS.contains(&lc.as_str()) && has_exp { continue; }
             let members = &tb.classes[lc];
-            let mut v = canon[..g].to_vec();
-            for _ in 0..k { v.push(members[rng.below(members.len())]); }
-            v.extend_from_slice(&canon[g..]);
-            out.push(Variant { bytes: v, kind: "loop" });
+            for &k in ks {
+                let mut v = canon[..g].to_vec();
+                for _ in 0..k { v.push(members[rng.below(members.len())]); }
+                v.extend_from_slice(&canon[g..]);
+                out.push(Variant { bytes: v, kind: "loop" });
+            }
+            if thorough {
+                let k = rng.range(66, 200);
+                let mut v = canon[..g].to_vec();
+                for _ in 0..k { v.push(members[rng.below(members.len())]); }
+                v.extend_from_slice(&canon[g..]);
+                out.push(Variant { bytes: v, kind: "loop" });
+            }
         }
     }
     out
@@ -138,7 +149,8 @@ pub struct Ep { pub name: &'static str, pub sem: Sem, pub utf8_only: bool, pub f
 struct WrapV { v: sonic_rs::Value }
 
 fn wrap(pre: &[u8], b: &[u8], post: &[u8]) -> Vec<u8> { let mut v = pre.to_vec(); v.extend_from_slice(b); v.extend_from_slice(post); v }
-fn dv(v: &sonic_rs::Value) -> Option<J> { Some(dump_value(v).unwrap_or_else(|e| json!({"t":"inconsistent","why":e}))) }
+pub static DUMP_ON: std::sync::atomic::AtomicBool = std::sync::atomic::AtomicBool::new(true);
+fn dv(v: &sonic_rs::Value) -> Option<J> { if !DUMP_ON.load(std::sync::atomic::Ordering::Relaxed) { return None; } Some(dump_value(v).unwrap_or_else(|e| json!({"t":"inconsistent","why":e}))) }
 fn s(b: &[u8]) -> &str { std::str::from_utf8(b).unwrap() }
 
 pub fn entry_points() -> Vec<Ep> {
@@ -219,10 +231,12 @@ pub fn replay(args: &[String]) -> i32 {
     let outdir = arg(args, "--out").expect("--out").to_string();
     let prop = arg(args, "--prop").unwrap_or("C02").to_string();
     let skip_to = arg_u64(args, "--skip-to", 0);
+    let shard = arg_u64(args, "--shard", 0);
+    let nshards = arg_u64(args, "--nshards", 1);
     let mut inflight = Inflight::new(arg(args, "--inflight"));
-    let mut rng = Rng::new(seed);
     let idx: HashMap<String, usize> = recs.iter().enumerate().map(|(i, r)| (key(&r.t), i)).collect();
     let eps = entry_points();
+    let maxlen = recs.iter().map(|r| r.t.len()).max().unwrap_or(0);
     // accepted texts indexed by their proper prefixes: used to complete rejected leaves
     let mut ext: HashMap<String, Vec<usize>> = HashMap::new();
     for (i, r) in recs.iter().enumerate() {
@@ -245,6 +259,9 @@ pub fn replay(args: &[String]) -> i32 {
     let mut samples: Vec<J> = Vec::new();
     let mut panics = 0u64;
     for (ri, rec) in recs.iter().enumerate() {
+        if (ri as u64) % nshards != shard || (ri as u64) < skip_to { continue; }
+        let mut rng = Rng::new(seed.wrapping_mul(0x9E3779B97F4A7C15) ^ (ri as u64));
+        let mut probe_rec: Option<&Rec> = None;
         let mut vars = variants(rec, &idx, &recs, &tb, &mut rng, thorough);
         // A dead leaf p.c (both machines rejected at c): every extension is rejected too.  Complete it
         // with the tails of accepted siblings p.c'.w  ->  p.c.w and p.c.c'.w : an implementation that
@@ -253,29 +270,109 @@ pub fn replay(args: &[String]) -> i32 {
             let n = rec.t.len();
             if let Some(sibs) = ext.get(&key(&rec.t[..n - 1])) {
                 let head = tb.canon_bytes(&rec.t);
+                let mut tails: Vec<Vec<u8>> = Vec::new();
                 for &si in sibs {
                     let sib = &recs[si];
+                    tails.push(tb.canon_bytes(&sib.t[n..]));
+                    tails.push(tb.canon_bytes(&sib.t[n - 1..]));
+                }
+                for tail in &tails {
                     let mut a = head.clone();
-                    a.extend(tb.canon_bytes(&sib.t[n..]));
+                    a.extend_from_slice(tail);
                     vars.push(Variant { bytes: a, kind: "leafext" });
-                    let mut b = head.clone();
-                    b.extend(tb.canon_bytes(&sib.t[n - 1..]));
-                    vars.push(Variant { bytes: b, kind: "leafext" });
+                }
+                // block-edge runs inside the rejected prefix, followed by a completing tail
+                let nloop = vars.iter().filter(|v| v.kind == "loop").count();
+                let mut extra = Vec::new();
+                for (vi, v) in vars.iter().enumerate() {
+                    if v.kind != "loop" { continue; }
+                    let k = v.bytes.len() - n;
+                    if !matches!(k, 30..=33 | 62..=65) && !(thorough && nloop < 400) { continue; }
+                    let _ = vi;
+                    for tail in tails.iter().take(if thorough { 6 } else { 2 }) {
+                        let mut a = v.bytes.clone();
+                        a.extend_from_slice(tail);
+                        extra.push(Variant { bytes: a, kind: "leafext-loop" });
+                    }
+                }
+                vars.extend(extra);
+            }
+        }
+        // Laxness probes from a *live* state p: every class c2 of the rejecting block, followed by what would
+        // have been an accepted continuation had c2 been an accepting class c' (p.c2.w and p.c2.c'.w).  The
+        // quotient collapses all rejecting classes into one dead leaf; the implementation may treat each differently.
+        let mut probes: Vec<Variant> = Vec::new();
+        if !rec.part.is_empty() && rec.t.len() < maxlen {
+            let n = rec.t.len();
+            let child = |c: &String| -> Option<&Rec> { let mut t = rec.t.clone(); t.push(c.clone()); idx.get(&key(&t)).map(|&i| &recs[i]) };
+            let rep_of = |bl: &Vec<String>| -> String { bl.iter().min_by_key(|c| tb.order[*c]).unwrap().clone() };
+            let mut reject: Option<&Vec<String>> = None;
+            let mut tails: Vec<Vec<u8>> = Vec::new();
+            for bl in &rec.part {
+                let rep = rep_of(bl);
+                match child(&rep) {
+                    Some(ch) if ch.part.is_empty() && !ch.lax && !ch.acc => reject = Some(bl),
+                    Some(ch) => {
+                        if tails.len() < 8 {
+                            if let Some(sibs) = ext.get(&key(&ch.t)) {
+                                if let Some(&si) = sibs.first() {
+                                    tails.push(tb.canon_bytes(&recs[si].t[n + 1..]));     // w
+                                    tails.push(tb.canon_bytes(&recs[si].t[n..]));         // c'.w
+                                }
+                            } else if ch.lax { tails.push(vec![]); tails.push(vec![tb.canon[&rep]]); }
+                        }
+                    }
+                    None => {}
+                }
+            }
+            if let Some(rb) = reject {
+                let head = tb.canon_bytes(&rec.t);
+                let dead = child(&rep_of(rb)).unwrap();
+                probe_rec = Some(dead);
+                for c2 in rb {
+                    let members = &tb.classes[c2];
+                    for tail in &tails {
+                        let mut a = head.clone();
+                        a.push(members[rng.below(members.len())]);
+                        a.extend_from_slice(tail);
+                        // one in eight probes additionally gets a block-edge run somewhere in the prefix
+                        if rng.chance(1, if thorough { 2 } else { 8 }) {
+                            let g = rng.below(n + 1);
+                            if let Some(pg) = idx.get(&key(&rec.t[..g])).map(|&i| &recs[i]) {
+                                if !pg.loops.is_empty() {
+                                    let lc = &pg.loops[rng.below(pg.loops.len())];
+                                    if !(DIGITS.contains(&lc.as_str()) && has_exp_classes(&rec.t)) {
+                                        let lm = &tb.classes[lc];
+                                        let k = *rng.pick(&[30usize, 31, 32, 33, 62, 63, 64, 65]);
+                                        let mut b = a[..g].to_vec();
+                                        for _ in 0..k { b.push(lm[rng.below(lm.len())]); }
+                                        b.extend_from_slice(&a[g..]);
+                                        probes.push(Variant { bytes: b, kind: "probe-loop" });
+                                    }
+                                }
+                            }
+                        }
+                        probes.push(Variant { bytes: a, kind: "probe" });
+                    }
                 }
             }
         }
-        if (ri as u64) < skip_to { continue; }
         if rec.t.len() >= 3 && rec.gram { nontrivial += 1; }
-        for var in &vars {
+        let nvars = vars.len();
+        vars.extend(probes);
+        for (vi, var) in vars.iter().enumerate() {
+            let rec: &Rec = if vi >= nvars { probe_rec.unwrap() } else { rec };
+            if vi >= nvars && rec.pv["t"] == "num" { /* prefix outcome open for root numbers */ }
             cases += 1;
             *per_kind.entry(var.kind).or_default() += 1;
+            DUMP_ON.store(var.kind == "canon", std::sync::atomic::Ordering::Relaxed);
             inflight.set(ri as u64, &var.bytes);
             let utf8 = std::str::from_utf8(&var.bytes).is_ok();
             for ep in &eps {
                 if ep.utf8_only && !utf8 { continue; }
                 let want = expected(rec, ep.sem);
                 // a root-level number followed by a non-delimiter: outcome of one-value entry points is open
-                if rec.pamb && matches!(ep.sem, Sem::PStrict | Sem::PLax | Sem::PLossy | Sem::PRaw) { continue; }
+                if (rec.pamb || (vi >= nvars && rec.pv["t"] == "num")) && matches!(ep.sem, Sem::PStrict | Sem::PLax | Sem::PLossy | Sem::PRaw) { continue; }
                 let got = catch(|| (ep.f)(&var.bytes));
                 evals += 1;
                 let (ok, detail) = match &got {
@@ -327,7 +424,7 @@ pub fn replay(args: &[String]) -> i32 {
         "per_ep": per_ep.iter().map(|(k, v)| (k.to_string(), json!({"ok":v.0,"err":v.1}))).collect::<serde_json::Map<_,_>>(),
         "per_kind": per_kind.iter().map(|(k, v)| (k.to_string(), json!(v))).collect::<serde_json::Map<_,_>>(),
         "mismatches": mism, "samples": samples});
-    std::fs::write(format!("{outdir}/summary.json"), serde_json::to_vec(&summary).unwrap()).unwrap();
+    std::fs::write(format!("{outdir}/summary.{shard}.json"), serde_json::to_vec(&summary).unwrap()).unwrap();
     0
 }
 
@@ -360,6 +457,19 @@ impl<'a> Gen<'a> {
     }
     pub fn number(&mut self, out: &mut Vec<u8>) {
         if self.rng.chance(1, 3) { out.push(b'-'); }
+        if self.rng.chance(1, 12) {
+            // literals around the overflow threshold 2^1024 - 2^970 and other hard spots
+            const HARD: &[&str] = &["1e308", "1.7976931348623157e308", "1.7976931348623158e308", "1.7976931348623159e308", "18e307",
+                "17976931348623157e292", "17976931348623159e292", "2e308", "9999999999999999999e290", "1e309", "0.00001e314", "1e-400",
+                "179769313486231580793728971405303415079934132710037826936173778980444968292764750946649017977587207096330286416692887910946555547851940402630657488671505820681908902000708383676273854845817711531764475730270069855571366959622842914819860834936475292719074168444365510704342711559699508093042880177904174497792",
+                "179769313486231580793728971405303415079934132710037826936173778980444968292764750946649017977587207096330286416692887910946555547851940402630657488671505820681908902000708383676273854845817711531764475730270069855571366959622842914819860834936475292719074168444365510704342711559699508093042880177904174497791",
+                "0.000000000000000000000000000000000001e344", "123456789012345678901234567890e279", "4.9e-324", "2.4703282292062327e-324", "2.4703282292062328e-324",
+                "9007199254740993", "9007199254740992.5", "18446744073709551616", "-9223372036854775809", "1e22", "1e23", "8.41e21"];
+            let h = *self.rng.pick(HARD);
+            let h = h.strip_prefix('-').unwrap_or(h);
+            out.extend_from_slice(h.as_bytes());
+            return;
+        }
         match self.rng.below(6) {
             0 => out.push(b'0'),
             1 => out.extend_from_slice(b"18446744073709551615"),
@@ -450,6 +560,7 @@ pub fn record(args: &[String]) -> i32 {
     let mut inflight = Inflight::new(arg(args, "--inflight"));
     let mut rng = Rng::new(seed ^ 0x6a74);
     let eps = entry_points();
+    DUMP_ON.store(true, std::sync::atomic::Ordering::Relaxed);
     let mut outs: Vec<Out> = (0..shards).map(|i| Out::create(&format!("{out}.{i}.ndjson"))).collect();
     // optional seeds from emitted behaviours (expanded with long runs / substitutions)
     let (tb, recs) = match (arg(args, "--tables"), arg(args, "--beh")) {
